@@ -5,9 +5,11 @@
    consumed; an output stream is the list of bytes appended.  C strings are
    [list N] without the terminating NUL.  Definitions only.
 
-   The model follows the code with the three repairs of props/C04/fixes
-   applied: (F22) write_tar_header decides the record type before it emits any
-   extension record; (F23) PAX xattrs are appended, not prepended. *)
+   The model follows the code as repaired: (F22) write_tar_header decides the
+   record type before it emits any extension record.  The PAX reader PREPENDS
+   every SCHILY / LIBARCHIVE xattr record (pax_xattr_schily: xattr->next =
+   out->xattr; out->xattr = xattr), so the decoded list is the reverse of the
+   record order; sqfs2tar compensates (fix F23, see TarStream.v). *)
 From Coq Require Import List NArith ZArith Bool.
 From SqfsV Require Import C04.TarNum.
 Import ListNotations.
@@ -710,7 +712,8 @@ Definition s_schily_xattr := [83;67;72;73;76;89;46;120;97;116;116;114].         
 Definition s_libarchive_xattr := [76;73;66;65;82;67;72;73;86;69;46;120;97;116;116;114]. (* "LIBARCHIVE.xattr" *)
 
 (* state of read_pax_header's loop: flags, header, and the local variables
-   offset / sparse_last (as "a GNU.sparse.numbytes record was seen") *)
+   offset / sparse_last (as "sparse_last != NULL": a GNU.sparse.numbytes record
+   was seen and no GNU.sparse.map record since) *)
 Record pstate := mkps { ps_fl : list pflag; ps_out : dec_hdr; ps_off : N; ps_started : bool }.
 
 Definition ps_set (st : pstate) (f : option pflag) (out : dec_hdr) : pstate :=
@@ -750,18 +753,21 @@ Definition pax_apply (st : pstate) (key value : list N) : option pstate :=
   else if list_eqb key (s_gnu_sparse_ ++ s_major) then Some (ps_set st (Some P_SPARSE_1X) out)
   else if list_eqb key (s_gnu_sparse_ ++ s_minor) then Some (ps_set st (Some P_SPARSE_1X) out)
   else match prefixed s_schily_xattr key with
-  | Some k => Some (ps_set st None (set_xattr out (d_xattr out ++ [(k, value)])))
+  | Some k => Some (ps_set st None (set_xattr out ((k, value) :: d_xattr out)))
   | None =>
   match prefixed s_libarchive_xattr key with
   | Some k =>
     match base64_decode value with
-    | Some v => Some (ps_set st None (set_xattr out (d_xattr out ++ [(urldecode k, v)])))
+    | Some v => Some (ps_set st None (set_xattr out ((urldecode k, v) :: d_xattr out)))
     | None => None
     end
   | None =>
   if list_eqb key (s_gnu_sparse_ ++ s_map) then
     match psm_go (S (length cval)) cval [] with
-    | Some m => Some (ps_set st None (set_sparse out m))
+    | Some m =>
+      (* the map replaces (and frees) the list the offset/numbytes records
+         were appending to: sparse_last = NULL *)
+      Some (mkps (ps_fl st) (set_sparse out m) (ps_off st) false)
     | None => None
     end
   else if list_eqb key (s_gnu_sparse_ ++ s_offset) then
